@@ -21,7 +21,14 @@ type axis struct {
 }
 
 func (a *axis) getIndex(v float64) int {
-	index := int(math.Floor((v-a.start)/a.size)) + 1
+	fIndex := math.Floor((v-a.start)/a.size) + 1
+	// the conversion to an int is only defined if the value fits
+	if fIndex >= float64(a.bins) {
+		return a.bins - 1
+	} else if !(fIndex >= 0) {
+		return 0
+	}
+	index := int(fIndex)
 	if index < 0 {
 		index = 0
 	} else if index >= a.bins {
